@@ -48,7 +48,9 @@ TIERS = {
                 ('11-tiny-2', dict(Xsd='11', GridName='tiny', MaxOps=2, LawOps=1, ImplicitTZcfg=0)),
                 ('10-tiny-2', dict(Xsd='10', GridName='tiny', MaxOps=2, LawOps=1, ImplicitTZcfg=0)),
                 ('11-tiny-impl', dict(Xsd='11', GridName='tiny', MaxOps=1, LawOps=1, ImplicitTZcfg=10030))],
-        tlc_workers=4, parallel=6),
+        objects=[('obj-11', dict(Xsd='11', ImplicitTZcfg=0, MaxUses=2)),
+                 ('obj-10-impl', dict(Xsd='10', ImplicitTZcfg=10030, MaxUses=2))],
+        tlc_workers=4, parallel=8),
     'thorough': dict(
         sweep='thorough',
         chains=[('11-full-1', dict(Xsd='11', GridName='full', MaxOps=1, LawOps=0, ImplicitTZcfg=0)),
@@ -56,7 +58,11 @@ TIERS = {
                 ('11-small-2', dict(Xsd='11', GridName='small', MaxOps=2, LawOps=1, ImplicitTZcfg=0)),
                 ('10-small-2', dict(Xsd='10', GridName='small', MaxOps=2, LawOps=1, ImplicitTZcfg=0)),
                 ('11-small-impl', dict(Xsd='11', GridName='small', MaxOps=1, LawOps=0, ImplicitTZcfg=330))],
-        tlc_workers=8, parallel=3),
+        objects=[('obj-11', dict(Xsd='11', ImplicitTZcfg=0, MaxUses=3)),
+                 ('obj-10', dict(Xsd='10', ImplicitTZcfg=0, MaxUses=2)),
+                 ('obj-11-impl', dict(Xsd='11', ImplicitTZcfg=330, MaxUses=2)),
+                 ('obj-10-impl', dict(Xsd='10', ImplicitTZcfg=10030, MaxUses=2))],
+        tlc_workers=8, parallel=4),
 }
 
 # ---------------------------------------------------------------------------------------
@@ -719,7 +725,283 @@ def render_args(args):
     return '(' + ', '.join(render_dur(a) if isinstance(a, dict) and 'neg' in a else str(a) for a in args) + ')'
 
 
+# ---------------------------------------------------------------------------------------
+# DateObject: ONE value object driven along every path of the history graph
+
+OBJS: dict = {}       # model name -> dict(cfg, states, out, tree, incoming, groups)
+
+
+class Unsupported(Exception):
+    pass
+
+
+def load_obj(name, consts, dot, output):
+    g = tla.load_dot(dot)
+    os.remove(dot)
+    others = {k: list(v) for k, v in printed_table(output, 'others', name).items()}
+    imp = consts['ImplicitTZcfg']
+    imp = 10000 - imp if imp >= 10000 else imp
+    cfg = dict(name=name, xsd=consts['Xsd'], implicit=imp, timezone=None if imp == 0 else lex_tz(imp),
+               others=others, durothers={})
+    out = g.out()
+    incoming = {s: [] for s in g.states}
+    for s0, d, a, args in g.edges:
+        incoming[d].append((s0, a, args))
+    tree, root = {}, {}
+    q = deque()
+    for i in sorted(g.init, key=lambda x: render_val(g.states[x]['obj'])):
+        tree[i], root[i] = [], i
+        q.append(i)
+    while q:
+        s0 = q.popleft()
+        for d, a, args in out[s0]:
+            if d not in tree:
+                tree[d], root[d] = tree[s0] + [(a, args, d)], root[s0]
+                q.append(d)
+    groups = {}
+    for s0 in g.states:
+        groups.setdefault(root[s0], []).append(s0)
+    return dict(cfg=cfg, states=g.states, out=out, tree=tree, incoming=incoming, groups=groups,
+                n_edges=len(g.edges), n_states=len(g.states))
+
+
+def tz_object(tz):
+    from elementpath.datatypes import Timezone
+    return None if tz == NOTZ else Timezone(pydt.timedelta(minutes=tz))
+
+
+def obj_other(cfg, kind, i):
+    return cfg['others'][kind][i - 1]
+
+
+HOUR = dict(k='dtd', neg=False, m=0, d=0, s=3600, us=0)
+
+
+def obj_expr(action, args, cur, cfg):
+    """XPath text of one use of the bound variable $d (cur = abstract value bound to $d)"""
+    k = cur['k']
+    adj = lambda tz: f'adjust-{k}-to-timezone($d, {xp_tz(tz)})'          # noqa: E731
+    oth = lambda i: xp_lit(k, render_val(obj_other(cfg, k, i)))          # noqa: E731
+    dur = lambda r: xp_lit(r['k'], render_dur(r))                        # noqa: E731
+    cmp3 = lambda a, o: f'({a} lt {o}, {a} eq {o}, {a} gt {o})'          # noqa: E731
+    if action in ('Add', 'AddYM'):
+        return f'$d + {dur(args[0])}'
+    if action == 'Sub':
+        return f'$d - {dur(args[0])}'
+    if action == 'Diff':
+        return f'$d - {oth(args[0])}'
+    if action == 'Cmp':
+        return cmp3('$d', oth(args[0]))
+    if action == 'Adjust':
+        return adj(args[0])
+    if action == 'AdjustAdd':
+        return f'{adj(args[0])} + {dur(args[1])}'
+    if action == 'AdjustDiff':
+        return f'{adj(args[0])} - {oth(args[1])}'
+    if action == 'AdjustCmp':
+        return cmp3(adj(args[0]), oth(args[1]))
+    if action == 'AdjustImplAdd':
+        return f'adjust-{k}-to-timezone($d) + {dur(args[0])}'
+    raise Unsupported(action)
+
+
+def obj_py(action, args, obj, cur, cfg):
+    """one use of the real Python object through the datatypes API"""
+    from copy import copy
+    c = classes()
+    k = cur['k']
+
+    def relabelled(tz):
+        # fn:adjust-*-to-timezone that only sets or strips the timezone = a copy with another tzinfo
+        if cur['tz'] != NOTZ and tz != NOTZ:
+            raise Unsupported('adjust between two timezones is an XPath function')
+        v = copy(obj)
+        v.tzinfo = tz_object(tz)
+        return v
+    other = lambda i: py_construct(obj_other(cfg, k, i), cfg)            # noqa: E731
+    dur = lambda r: c[r['k']].fromstring(render_dur(r))                  # noqa: E731
+    if action in ('Add', 'AddYM'):
+        return obj + dur(args[0])
+    if action == 'Sub':
+        return obj - dur(args[0])
+    if action == 'Diff':
+        return obj - other(args[0])
+    if action == 'Cmp':
+        o = other(args[0])
+        return [obj < o, obj == o, obj > o]
+    if action == 'Adjust':
+        return relabelled(args[0])
+    if action == 'AdjustAdd':
+        return relabelled(args[0]) + dur(args[1])
+    if action == 'AdjustDiff':
+        return relabelled(args[0]) - other(args[1])
+    if action == 'AdjustCmp':
+        v, o = relabelled(args[0]), other(args[1])
+        return [v < o, v == o, v > o]
+    raise Unsupported(action)
+
+
+def obj_features(cfg, binding, style, path, cur, exp_state, out, diff):
+    action, args, _ = path[-1]
+    prev = path[-2][0] if len(path) > 1 else '-'
+    f = dict(op={'Cmp': 'Compare', 'AdjustCmp': 'Compare'}.get(action, action), use=action, prev=prev, uses=len(path),
+             binding=binding, style=style, spelling='object', xsd=cfg['xsd'], kind=cur['k'],
+             implicit_tz='utc' if cfg['implicit'] == 0 else 'other', outcome=out, diff=diff,
+             era_src=era(cfg, cur), tz_src=tz_class(cur), tz_other='-', arg='-')
+    if action in ('Adjust', 'AdjustAdd', 'AdjustDiff', 'AdjustCmp', 'SetTZ'):
+        f['arg'] = 'none' if args[0] == NOTZ else 'tz'
+    if action == 'AdjustCmp':
+        f['tz_src'] = tz_class(dict(tz=args[0]))
+        f['tz_other'] = tz_class(obj_other(cfg, cur['k'], args[1]))
+    elif action == 'Cmp':
+        f['tz_other'] = tz_class(obj_other(cfg, cur['k'], args[0]))
+    return f
+
+
+def obj_unchanged(obj, cur, cfg):
+    """the operand object still IS the bound value: same lexical form, equal to and hashing like a fresh one"""
+    fresh = py_construct(cur, cfg)
+    got = project(obj)
+    if judge(exp_val(cur), got) is not None:
+        return ('mutated', str(got[-1]))
+    if not (obj == fresh) or hash(obj) != hash(fresh):
+        return ('mutated', 'eq/hash')
+    return None
+
+
+def replay_path(M, path, init_sid, binding, fails, stats):
+    """drive one real object along the path; judge the last step (earlier steps only for prefix hygiene).
+    Returns the number of evaluations."""
+    import elementpath
+    from elementpath import XPath2Parser
+    cfg, states = M['cfg'], M['states']
+    cur = states[init_sid]['obj']
+    n = 0
+    last = len(path) - 1
+    if binding == 'for':
+        # one expression: for $d in <literal> return (use1, use2, ...)
+        if any(a == 'SetTZ' for a, _, _ in path):
+            return 0
+        try:
+            items = [obj_expr(a, args, cur, cfg) for a, args, _ in path]
+        except Unsupported:
+            return 0
+        expr = f'for $d in {xp_lit(cur["k"], render_val(cur))} return (' + ', '.join(items) + ')'
+        tz = lex_tz(cfg['implicit']) if any(a == 'AdjustImplAdd' for a, _, _ in path) else cfg['timezone']
+        obs = xp_eval(expr, cfg, tz)
+        n += 1
+        widths = [3 if a in ('Cmp', 'AdjustCmp') else 1 for a, _, _ in path]
+        if obs[0] not in ('seq', 'err', 'escaped'):
+            obs = ('seq', (obs,))          # a sequence of one item comes back as the item
+        stats['for_expressions'] = stats.get('for_expressions', 0) + 1
+        if obs[0] == 'seq' and len(obs[1]) == sum(widths):
+            pos = 0
+            for i, w in enumerate(widths):
+                part = obs[1][pos:pos + w]
+                pos += w
+                o = ('seq', part) if w == 3 else part[0]
+                exp = expect(states[path[i][2]]['res'])
+                bad = judge_any(exp, o)
+                if bad and i < last:
+                    stats['unreached_for'] = stats.get('unreached_for', 0) + 1
+                    return n
+                if bad:
+                    fails.append((obj_features(cfg, 'xp', 'for', path, cur, None, bad[0], bad[1]),
+                                  dict(model=cfg['name'], binding='xp', expr=expr, xsd=cfg['xsd'], timezone=tz, spelling='object',
+                                       item=i), exp, o, expr))
+        else:
+            exp = expect(states[path[last][2]]['res'])
+            bad = judge_any(exp, obs) if obs[0] in ('err', 'escaped') else ('shape', '')
+            fails.append((obj_features(cfg, 'xp', 'for', path, cur, None, bad[0], bad[1]),
+                          dict(model=cfg['name'], binding='xp', expr=expr, xsd=cfg['xsd'], timezone=tz, spelling='object', item=last),
+                          exp, obs, expr))
+        return n
+    # 'py' (datatypes API) and 'var' (the caller's object passed as $d to successive select() calls)
+    try:
+        obj = py_construct(cur, cfg)
+    except Exception:  # noqa
+        stats['unreached_obj'] = stats.get('unreached_obj', 0) + 1
+        return n
+    trail = []
+    for i, (action, args, dsid) in enumerate(path):
+        dst = states[dsid]
+        if action == 'SetTZ':
+            obj.tzinfo = tz_object(args[0])          # the caller changes ITS object
+            cur = dst['obj']
+            obs, exp, what = project(obj), exp_val(cur), f'd.tzinfo = {lex_tz(args[0]) or None}'
+        else:
+            exp = expect(dst['res'])
+            try:
+                if binding == 'py':
+                    obs = py_outcome(lambda: obj_py(action, args, obj, cur, cfg))
+                    what = f'{action}{render_args(args)}'
+                    if obs[0] == 'escaped' and obs[1] == 'Unsupported':
+                        return n
+                else:
+                    what = obj_expr(action, args, cur, cfg)
+                    tz = lex_tz(cfg['implicit']) if action == 'AdjustImplAdd' else cfg['timezone']
+                    kw = {'timezone': tz} if tz is not None else {}
+                    obs = outcome_of(lambda: elementpath.select(
+                        None, what, parser=XPath2Parser, item=1, variables={'d': obj},
+                        xsd_version='1.0' if cfg['xsd'] == '10' else '1.1', **kw))
+            except Unsupported:
+                return n
+            n += 1
+        trail.append(what)
+        bad = judge_any(exp, obs)
+        if bad is None:
+            # values are immutable: the operand is still the bound value
+            m = obj_unchanged(obj, cur, cfg)
+            if m is not None:
+                bad, exp, obs = m, exp_val(cur), project(obj)
+                what = what + '  [operand afterwards]'
+        if bad:
+            if i < last:
+                stats['unreached_' + binding] = stats.get('unreached_' + binding, 0) + 1
+                return n
+            fails.append((obj_features(cfg, binding if binding == 'py' else 'xp', 'object' if binding == 'py' else 'var',
+                                       path, cur, None, bad[0], bad[1]),
+                          dict(model=cfg['name'], binding='obj-' + binding, xsd=cfg['xsd'], timezone=cfg['timezone'],
+                               literal=render_val(states[init_sid]['obj']), kind=states[init_sid]['obj']['k'], trail=trail,
+                               spelling='object'),
+                          exp, obs, f'$d := {render_val(states[init_sid]["obj"])}: ' + ' ; '.join(trail)))
+            return n
+    return n
+
+
+def obj_worker(job):
+    _, name, root_sid = job
+    core.setup_repo_path()
+    M = OBJS[name]
+    cfg, tree, incoming, out = M['cfg'], M['tree'], M['incoming'], M['out']
+    fails, stats = [], {}
+    n_eval = n_paths = 0
+    bindings = ['var', 'for'] + (['py'] if cfg['implicit'] == 0 else [])
+    for s in sorted(M['groups'][root_sid], key=lambda x: len(tree[x])):
+        prefixes = [tree[p] + [(a, args, s)] for p, a, args in incoming[s]] or [[]]
+        for d, a, args in out[s]:
+            for pre in prefixes:
+                path = pre + [(a, args, d)]
+                n_paths += 1
+                for b in bindings:
+                    n_eval += replay_path(M, path, root_sid, b, fails, stats)
+    stats['object_paths'] = n_paths
+    unmatched, hits = [], {}
+    for f in fails:
+        feat = core.jsonable(f[0])
+        for idx, k in enumerate(KNOWN):
+            if core.match_pattern(k['fingerprint'], feat):
+                hits[idx] = hits.get(idx, 0) + 1
+                break
+        else:
+            unmatched.append(f)
+    return n_eval, unmatched, [], stats, hits
+
+
+
 def worker(job):
+    if job[0] == 'obj':
+        return obj_worker(job)
     name, lo, hi = job
     core.setup_repo_path()
     cfg = CFGS[name]
@@ -749,7 +1031,34 @@ def replay(rec: dict) -> int:
     core.setup_repo_path()
     case = rec['case']
     exp = _tuplify(rec['expected'])
-    if case['binding'] == 'xp':
+    if case['binding'].startswith('obj-'):
+        # one object, several uses: re-drive the recorded trail on a fresh object
+        import elementpath
+        from elementpath import XPath2Parser
+        cfg = dict(xsd=case['xsd'], timezone=case['timezone'])
+        obj = classes()[(case['kind'], case['xsd'])].fromstring(case['literal'])
+        print('$d :=', case['literal'], ' xsd', case['xsd'], ' timezone', case['timezone'])
+        obs = None
+        for step in case['trail']:
+            if case['binding'] == 'obj-py':
+                print('python step:', step, '(re-run the check to replay Python API paths)')
+                continue
+            if step.startswith('d.tzinfo = '):
+                t = step[len('d.tzinfo = '):]
+                from elementpath.datatypes import Timezone
+                obj.tzinfo = None if t == 'None' else Timezone.fromstring(t)
+                obs = project(obj)
+            else:
+                kw = {'timezone': case['timezone']} if case['timezone'] else {}
+                if '-to-timezone($d)' in step and not kw:
+                    kw = {'timezone': 'Z'}
+                obs = outcome_of(lambda: elementpath.select(None, step, parser=XPath2Parser, item=1, variables={'d': obj},
+                                                            xsd_version='1.0' if case['xsd'] == '10' else '1.1', **kw))
+            print('  ', step, '->', obs, ' | $d is now', str(obj))
+        if case['binding'] == 'obj-py':
+            print('expected :', exp, '\nobserved :', rec['observed'])
+            return 1
+    elif case['binding'] == 'xp':
         cfg = dict(xsd=case['xsd'], timezone=case['timezone'])
         obs = xp_eval(case['expr'], cfg)
         print('expr     :', case['expr'], ' xsd', case['xsd'], ' timezone', case['timezone'])
@@ -899,6 +1208,13 @@ def model_worker(job):
         return name, (r, n, ce)
     wd = os.path.join(scratch, name)
     dot = os.path.join(wd, 'g.dot')
+    if name.startswith('obj-'):
+        cfg = tla.cfg_text(consts, invariants=['ObjLaws'], properties=['Immutable', 'HistoryFree'])
+        r = tla.require_ok(tla.run_tlc('DateObject', cfg, wd, workers=conf['tlc_workers'], dump_dot=dot),
+                           f'DateObject/{name}', min_distinct=500)
+        M = load_obj(name, consts, dot, r.output)
+        r.output = ''
+        return name, (r, M)
     cfg = tla.cfg_text(consts, invariants=['Laws'], properties=['LawsHold'])
     r = tla.require_ok(tla.run_tlc('DateChain', cfg, wd, workers=conf['tlc_workers'], dump_dot=dot),
                        f'DateChain/{name}', min_distinct=1000)
@@ -918,7 +1234,7 @@ def run(chk: core.Check) -> None:
         'not judged: Python attribute .year (documented no-year-zero convention of the classes), canonical duration strings (C10), overflow errors',
     ]
     # ---- TLC + graph loading: one forked worker per model, all models concurrently -----------------
-    mjobs = [('sweep', None, chk.scratch, conf)] + [(n, c, chk.scratch, conf) for n, c in conf['chains']]
+    mjobs = [('sweep', None, chk.scratch, conf)] + [(n, c, chk.scratch, conf) for n, c in conf['chains'] + conf['objects']]
     mres = dict(core.pool_map(model_worker, mjobs, procs=conf['parallel']))
     # ---- calendar sweep ---------------------------------------------------------------------
     r, n_days, n_ce = mres['sweep']
@@ -944,6 +1260,16 @@ def run(chk: core.Check) -> None:
         print(f'  {name}: states={r.distinct} edges={len(edges)} tlc={r.wall_s:.1f}s', flush=True)
     # interleave the models so that the pool stays busy
     jobs.sort(key=lambda j: (j[1], j[0]))
+    # ---- one object, several uses ----------------------------------------------------------------
+    ojobs = []
+    for name, consts in conf['objects']:
+        r, M = mres[name]
+        chk.model(f'DateObject/{name}', r)
+        OBJS[name] = M
+        chk.add('transitions', M['n_edges'])
+        ojobs += [('obj', name, root) for root in M['groups']]
+        print(f'  {name}: states={r.distinct} edges={M["n_edges"]} tlc={r.wall_s:.1f}s', flush=True)
+    jobs = ojobs + jobs          # the object walks are the longest jobs: start them first
     KNOWN[:] = chk.known
     res = core.pool_map(worker, jobs)
     oracle_msgs = []
@@ -960,9 +1286,15 @@ def run(chk: core.Check) -> None:
     if oracle_msgs:
         raise tla.MachineryError(f'spec/DateChain disagrees with python datetime: {oracle_msgs[:5]}')
     chk.coverage['edges_cross_checked_with_python_datetime'] = stats.pop('edges_cross_checked_with_python_datetime', 0)
+    n_paths = stats.pop('object_paths', 0)
+    chk.coverage['object_paths'] = n_paths
+    chk.add('traces_validated_against_impl', n_paths)
     chk.coverage['unreached'] = stats
     chk.coverage['exhaustive'] = True
     chk.coverage['rule'] = ('every day of the swept windows is one TLC state of CalendarSweep (closed form = odometer = classical count, '
                             'cross-checked with python date.toordinal); every edge of the TLC graph of DateChain (grid value x operation x '
                             'operand, chains of MaxOps operations, XSD 1.0 and 1.1) is replayed on the Python datatypes API and as XPath '
-                            'expressions (plain, commuted and nested spellings)')
+                            'expressions (plain, commuted and nested spellings); every path of the history graph of DateObject (one '
+                            'bound value used by up to MaxUses operations, every incoming edge of the source as prefix) is driven on ONE real '
+                            'object: Python API, a caller variable passed to successive select() calls, and one for-expression; the operand '
+                            'is compared with the bound value after every use')
